@@ -330,6 +330,30 @@ class _WpullFinder(importlib.abc.MetaPathFinder):
         return None
 
 
+def _fix_stream_reader():
+    '''StreamReader.read / readline / readexactly were generator based coroutines on the interpreters wpull targets, so
+    its plain generators may "yield from" them (the proxy server's session relays a request body that way).  Native
+    coroutine methods cannot be delegated to from a plain generator; wrap them as generator based ones again.'''
+    import types
+
+    def generator_based(name):
+        original = getattr(asyncio.StreamReader, name)
+        if getattr(original, '_compat', False):
+            return
+
+        @types.coroutine
+        def method(self, *args, **kwargs):
+            return (yield from original(self, *args, **kwargs).__await__())
+        method._compat = True
+        method.__name__ = name
+        marker = getattr(asyncio.coroutines, '_is_coroutine', None)
+        if marker is not None:
+            method._is_coroutine = marker
+        setattr(asyncio.StreamReader, name, method)
+    for name in ('read', 'readline', 'readexactly', 'readuntil'):
+        generator_based(name)
+
+
 def install():
     global _installed
     if _installed:
@@ -341,6 +365,7 @@ def install():
     warnings.filterwarnings('ignore', category=ResourceWarning)
     _fix_collections()
     _fix_asyncio()
+    _fix_stream_reader()
     _fix_tornado()
     _fix_imp()
     _fix_html5lib()
